@@ -56,8 +56,7 @@ def check_counters(ctx, rule: str):
                             compares.append((n, op.id, other, counters))
         if not compares:
             continue
-        cfg = CFG(fn, exc_edges=False)
-        dom = cfg.dominators()
+        cfg = CFG(fn, exc_edges=True)  # handlers inside the counting loop matter
         parents = {}
         for p in ast.walk(fn):
             for c in ast.iter_child_nodes(p):
